@@ -14,7 +14,8 @@
    specification only (residual_from_ode lifts, implicit M (u^(k) - f) = 0 formulations, index-1
    DAE stacks whose algebraic part determines one component), once with the default Gauss-Newton
    settings (stopping tolerance 1e-6: compared at 2e-5) and once with
-   lstsq_constrained_gauss_newton(tol=1e-13, maxiter=40) (compared at 1e-8).
+   lstsq_constrained_gauss_newton(tol=1e-13, maxiter=40) (compared at 1e-6; non-convergence is
+   reported separately as C10.residual.not-converged).
    Expected on the unchanged tree: jetexpand_ode_via_jvp and jetexpand_ode_doubling_unroll agree
    with their models but NOT with the specification for time-dependent fields (they close over t):
    signatures C10.via_jvp.time-dependent / C10.doubling.time-dependent.
@@ -38,7 +39,8 @@ Local Open Scope Z_scope.
 """
 
 TOL = 1e-9
-RES_TOL = 1e-8           # jetexpand_residual with lstsq_constrained_gauss_newton(tol=1e-13, maxiter=40)
+RES_TOL = 1e-6           # jetexpand_residual with lstsq_constrained_gauss_newton(tol=1e-13, maxiter=40): SVD least squares on
+                         # Jacobians whose entries span many orders of magnitude limit the attainable accuracy
 RES_TOL_DEFAULT = 2e-5   # ... with the default Gauss-Newton (its stopping tolerance is 1e-6)
 ALG = {"padded_scan": 0, "unroll": 1, "via_jvp": 2, "doubling": 3}
 NZ = [k for k in range(-6, 7) if k != 0]
@@ -464,8 +466,18 @@ def main():
                               f"coefficients by more than {RES_TOL_DEFAULT}: {mism_d} (iterations {rec.get('iters_default')}); the tightened solver is accurate",
                               dict(replay, expected=[[str(x) for x in v] for v in exp_spec]))
                 if mism_s:
-                    ck.report(f"C10.residual.{c['residual']['form']}", f"jetexpand_residual(num={num}) on the {c['residual']['form']} formulation "
-                              f"(order {k}, d={d}): {mism_s}", dict(replay, expected=[[str(x) for x in v] for v in exp_spec]))
+                    scale_all = max([1.0] + [abs(float(x)) for v in exp_spec for x in v])
+                    stalled = rec.get("iters") is not None and rec["iters"] >= rec.get("maxiter", 40)
+                    if stalled or rec.get("constraint_norm", 0.0) > 1e-6 * scale_all:
+                        ck.report("C10.residual.not-converged", f"jetexpand_residual(num={num}) on the {c['residual']['form']} formulation "
+                                  f"(order {k}, d={d}) returns coefficients that are not the solution's and gives no error: the Gauss-Newton "
+                                  f"iteration (tol 1e-13, maxiter {rec.get('maxiter')}) stopped after {rec.get('iters')} iterations with "
+                                  f"|constraint| = {rec.get('constraint_norm'):.3g} (largest coefficient {scale_all:.3g}): {mism_s}",
+                                  dict(replay, expected=[[str(x) for x in v] for v in exp_spec]))
+                    else:
+                        ck.report(f"C10.residual.{c['residual']['form']}", f"jetexpand_residual(num={num}) on the {c['residual']['form']} "
+                                  f"formulation (order {k}, d={d}) converged to coefficients that are not the solution's: {mism_s}",
+                                  dict(replay, expected=[[str(x) for x in v] for v in exp_spec]))
                 continue
             if model_none:
                 ck.report(f"C10.{routine}.model-rejects", f"model of {routine} rejects a well-formed problem the implementation accepts",
